@@ -29,12 +29,20 @@ type ParseOptions struct {
 	Envelop bool
 }
 
-// decodeInto unmarshals in as YAML, then merges it into dest.
+// decodeInto unmarshals in as JSON or YAML, then merges it into dest.
 func decodeInto(ctx context.Context, dest *map[string]interface{}, in io.Reader) error {
 	var intermediate map[string]interface{}
-	dec := yaml.NewDecoder(iotools.CancelableReader(ctx, in))
-	if err := dec.Decode(&intermediate); err != nil {
+	data, err := io.ReadAll(iotools.CancelableReader(ctx, in))
+	if err != nil {
 		return wrapError(StatusBadRequest, err)
+	}
+	// JSON is read as JSON: YAML's double-quoted strings do not know every
+	// JSON escape (`\/`, surrogate pairs), so valid JSON would be refused.
+	if jerr := json.Unmarshal(data, &intermediate); jerr != nil {
+		intermediate = nil
+		if err := yaml.Unmarshal(data, &intermediate); err != nil {
+			return wrapError(StatusBadRequest, err)
+		}
 	}
 	if err := mergo.Merge(dest, intermediate, mergo.WithOverride); err != nil {
 		return wrapError(StatusUnprocessableEntity, err)
